@@ -377,6 +377,49 @@ def check_base_spelling(ctx):
                           {'kind': 'base-spelling', 'case': c, 'impl': o, 'theorem': 'C12_sandbox_componentwise'})
 
 
+def subject_reparse(case):
+    """parse() of another source into an existing resource / document keeps the access control of the instance"""
+    import xmlschema
+    root = os.path.join(str(common.BUILD), 'tmp', 'c12_%d' % os.getpid())
+    if not os.path.isdir(os.path.join(root, 'sand')):
+        make_tree(root)
+    sand = os.path.join(root, 'sand')
+    target = os.path.join(root, TARGETS[case['target']])
+    schema = xmlschema.XMLSchema('<xs:schema xmlns:xs="http://www.w3.org/2001/XMLSchema"><xs:element name="r"/></xs:schema>')
+    res = {}
+
+    def go():
+        try:
+            if case['cls'] == 'XmlDocument':
+                obj = xmlschema.XmlDocument('<r/>', schema=schema, allow=case['mode'], base_url=sand)
+            else:
+                obj = xmlschema.XMLResource('<r/>', allow=case['mode'], base_url=sand)
+            res['created'] = True
+            obj.parse(target)
+            res['parse'] = 'ok'
+        except Exception as e:  # noqa
+            res['parse'] = common.exc_class(e)
+    record(go)
+    res['opened'] = any(kind != 'url' and os.path.realpath(what) == os.path.realpath(target) for kind, what in _EVENTS
+                        if not what.startswith('file:'))
+    return res
+
+
+def check_reparse(ctx):
+    cases = [{'mode': m, 'cls': k, 'target': t} for m in ('none', 'sandbox', 'local', 'remote') for k in ('XMLResource', 'XmlDocument')
+             for t in ('inside', 'outside', 'sibling')]
+    impl = common.pool_map(subject_reparse, cases, procs=4)
+    for c, o in zip(cases, impl):
+        ctx.count(('reparse', c['mode'], c['cls'], c['target']), nontrivial=True)
+        if 'harness_exception' in o or not o.get('created'):
+            ctx.violation('subject failed: %s' % (o.get('harness_exception') or o), {'kind': 'reparse', 'case': c}, no_input=True)
+            continue
+        klass = 'inside' if c['target'] == 'inside' else 'sibling' if c['target'] == 'sibling' else 'outside'
+        if o['opened'] and klass not in allowed_classes(c['mode']):
+            ctx.violation("allow=%r: %s.parse() opened a file %s the sandbox (%s)" % (c['mode'], c['cls'], klass, TARGETS[c['target']]),
+                          {'kind': 'reparse', 'case': c, 'impl': o, 'theorem': 'C12_decision_sound'})
+
+
 def gen(ctx):
     cases = []
     modes = ['all', 'remote', 'local', 'sandbox', 'none']
@@ -419,6 +462,7 @@ def run(ctx):
         evaluate(ctx, cases)
         check_remote_base(ctx)
         check_base_spelling(ctx)
+        check_reparse(ctx)
     finally:
         cleanup()
     ctx.assumptions = ['accesses are observed as CPython audit events open / urllib.Request inside the temporary tree',
@@ -433,6 +477,8 @@ def replay(ctx, case):
             check_remote_base(ctx)
         elif case.get('kind') == 'base-spelling':
             check_base_spelling(ctx)
+        elif case.get('kind') == 'reparse':
+            check_reparse(ctx)
         else:
             evaluate(ctx, [case['case']])
     finally:
